@@ -206,6 +206,10 @@ __CPROVER_ensures(g_j.cq == CQ_TRUNC ==> verif_exc == EXC_out_of_range) \
  * boundary was reached with the whitespace skipped */ \
 __CPROVER_ensures(verif_exc == 0 ==> (ret->kind == (kindv) && ret->count == g_j.cn && ret->is_string == false)) \
 __CPROVER_ensures(verif_exc == 0 ==> (r->offset == g_j.cend && g_j.csync)) \
+/* ... on EVERY outcome: white space (in default mode: a comment) in front of a token is skipped, never taken for the token -- a \
+ * document is not rejected because of white space between two tokens (RFC 8259 section 2: insignificant white space is allowed \
+ * before or after any of the six structural characters) */ \
+__CPROVER_ensures(g_j.csync) \
 __CPROVER_ensures(verif_exc == 0 ==> r->offset > __CPROVER_old(r->offset))
 
 void JSON_parse_list(StringReader* r, bool disable_extensions, JVal* ret)
